@@ -22,7 +22,11 @@
 (*         never past its end (how the header is buffered is free); when   *)
 (*         the                                                             *)
 (*         body is handed out, the transport has written all of it         *)
-(*       - no spinning: polls <= Pendings + 1; the run ends                *)
+(*       - the body handed out is the stream's bytes (nothing that the     *)
+(*         transport did not write is exposed)                             *)
+(*       - no spinning: the run ends within the poll bound, and every poll *)
+(*         either saw a Pending transport or made a transport call         *)
+(*         (polls <= Pendings + reads + 1)                                 *)
 (***************************************************************************)
 EXTENDS Wire, TraceBase
 
@@ -76,7 +80,12 @@ PollRet(e) ==
             /\ (Prop = "C03" =>
                     /\ e.out.k \in {"ok", "err"}
                     /\ maxend <= e.buflen
-                    /\ (e.out.k = "ok" => cov = Len(e.out.body) /\ e.buflen = Len(e.out.body)))
+                    \* reads that landed inside the buffer that is handed out must have covered all of it
+                    \* (an implementation that stages reads elsewhere and copies is not constrained here) ...
+                    /\ (e.out.k = "ok" => e.buflen = Len(e.out.body) /\ (maxend > 0 => cov = Len(e.out.body)))
+                    \* ... and in every case the body handed out is exactly the frame's body bytes of the stream
+                    /\ (e.out.k = "ok" => /\ e.out.total <= Len(bytes) /\ Len(e.out.body) <= e.out.total
+                                          /\ e.out.body = SubSeq(bytes, e.out.total - Len(e.out.body) + 1, e.out.total)))
             /\ last' = "done"
             /\ UNCHANGED <<pos, r, cov, maxend, open>>
 
@@ -84,7 +93,7 @@ Drop(e) == open /\ last = "returned" /\ last' = "none" /\ UNCHANGED <<pos, r, co
 
 RunEnd(e) ==
     /\ open /\ last = "done"
-    /\ (Prop = "C03" => e.polls <= e.pendings + 1)
+    /\ (Prop = "C03" => e.polls <= e.pendings + e.reads + 1)
     /\ open' = FALSE
     /\ UNCHANGED <<pos, last, r, cov, maxend>>
 
